@@ -58,6 +58,11 @@ def make_target(lab):
                 x.lock = threading.Lock()
                 x.fn = lambda: 1
                 raise x
+            if kind == "syntax":
+                x = SyntaxError("the source the method looked at is broken")
+                x.text = 5           # (not text: what formats the traceback stumbles over it)
+                x.lineno = "three"
+                raise x
             if kind == "strraise":
                 raise rotate("strclass", [StrRaises, StrOnlyRaises, StrOnlyRaises])("boom")
             raise ZeroDivisionError(kind)
@@ -247,7 +252,14 @@ def hostile_bytes(item, ser, rng, seq, base="invoke"):
     elif item == "unknown_object":
         data = inv("no-such-object", "echo", [1])
     elif item == "unknown_member":
-        data = inv("target", rng.choice(["nothing", "echo.__class__", "", "é"]), [1])
+        if rotate("unknownkind", [0, 1, 0, 2]) == 0:
+            data = inv("target", rng.choice(["nothing", "echo.__class__", "", "é"]), [1])
+        else:
+            # an attribute request whose "name" is not text but a proxy (for a place where nobody listens): whatever looks at the
+            # name must not look *into* it
+            import Pyro5.api as _P
+            px = _P.Proxy("PYRO:nobody@127.0.0.1:%d" % BLACKHOLE[0])     # (somebody accepts there and never says a word)
+            data = inv("target", "__getattr__" if ROT["unknownkind"] % 4 == 1 else "__setattr__", [px] if ROT["unknownkind"] % 4 == 1 else [px, 1])
     elif item == "private_member":
         data = inv("target", rng.choice(["_secret", "__init__", "__class__", "__dict__"]), [])
     elif item == "raises_plain":
@@ -255,7 +267,7 @@ def hostile_bytes(item, ser, rng, seq, base="invoke"):
     elif item == "raises_unserializable":
         data = inv("target", "boom", ["unser"])
     elif item == "raises_str_raises":
-        data = inv("target", rotate("boomstr", ["cboom", "boom", "cboom"]), ["strraise"])
+        data = inv("target", rotate("boomstr", ["cboom", "boom", "cboom"]), [rotate("strkind", ["strraise", "syntax", "strraise"])])
     elif item == "raises_in_oneway":
         data = inv("target", "oboom", ["x"], flags=protocol.FLAGS_ONEWAY)
     elif item == "raises_in_batch":
